@@ -38,7 +38,10 @@ Definition check (c : c02case) : N :=
       let fuel := walk_fuel H (HPtr (Some d)) in
       let m := compose_h fuel fs hin n_in d layers in
       (* the shipped inputs must satisfy the decidable hypotheses of the theorems *)
-      if negb (wf_heapb hin n_in && (d <? n_in) && layers_below n_in layers) then 1 else
+      let rk := compute_rk hin in
+      let guard_root := fun a => c03_guard_total hin n_in (rank_bound rk) (Nat.max (heap_depth hin) 1) rk (HPtr (Some a)) in
+      if negb (wf_heapb hin n_in && (d <? n_in) && layers_below n_in layers &&
+               guard_root d && forallb guard_root layers) then 1 else
       match impl with
       | Ok (r1, r2) =>
           match reach_of fuel H r1, reach_of fuel H r2 with
